@@ -6,7 +6,7 @@ def caught(logs):
     for lg in logs:
         if not os.path.exists(lg):
             continue
-        for line in open(lg).read().splitlines():
+        for line in open(lg, errors='replace').read().splitlines():
             m = re.match(r'(C\d+) (CAUGHT|missed|error)', line)
             if m:
                 # a later log (re-run with the strengthened harness) overrides an earlier one
